@@ -5,6 +5,7 @@
     answers: T<scalar> F P<n> K<keys> Y N C E<class> X ?
 -/
 import BSVerif.Scope.Spec
+import BSVerif.Scope.VarKey
 
 namespace BSVerif.Driver.Scope
 open BSVerif BSVerif.Scope
@@ -29,6 +30,9 @@ def parseKey (s : String) : Option Key :=
   match s.toList.head? with
   | some 's' => (parseBytes body).map .str
   | some 'i' => (parseInt body).map .int
+  -- request keys passed to the scope as int32_t (`j`) / uint64_t (`u`): the same mathematical integer
+  | some 'j' => (parseInt body).bind fun v => if -2147483648 ≤ v ∧ v < 2147483648 then some (.int v) else none
+  | some 'u' => (parseInt body).bind fun v => if 0 ≤ v ∧ v < 18446744073709551616 then some (.int v) else none
   | _ => none
 
 def parseTy : String → Option Ty
@@ -106,8 +110,71 @@ def parseAns (s : String) : Option Ans :=
   | some 'X' => some .terminate
   | _ => none
 
+/-- `std::tuple<int64,string,int64,bool>` loaded through types/std/tuple.h (model: the element requests on an array
+    scope, an OutOfRange from CheckEnd turned into MismatchedTypes under ThrowError / swallowed under Skip, surplus
+    elements rejected under ThrowError) -/
+def tupleTys : List Ty := [.int, .str, .int, .bool]
+
+def tupleModel (mis : Mis) (doc : List Tok) : List Ans :=
+  let st0 := initSt doc mis
+  match step st0 .openArr with
+  | (.opened _, st1) =>
+    let rec go : List Ty → St → List Ans → List Ans
+      | [], st, acc =>
+        match step st .isEnd with
+        | (.flag false, _) => if mis = .throwError then [.err .mismatched] else acc.reverse
+        | _ => acc.reverse
+      | ty :: tys, st, acc =>
+        match step st (.next ty) with
+        | (.err .outOfRange, _) => if mis = .throwError then [.err .mismatched] else (acc.reverse ++ (ty :: tys).map fun _ => Ans.no)
+        | (.err e, _) => [.err e]
+        | (a, st') => go tys st' (a :: acc)
+    go tupleTys st1 []
+  | (.no, _) => tupleTys.map fun _ => Ans.no
+  | (.err e, _) => [.err e]
+  | _ => [.badReq]
+
+/-- abstract expectation for the tuple load (from the data model, not from the scope model) -/
+def tupleSpec (mis : Mis) (doc : List Tok) : Option (List Ans) :=
+  match Spec.parseDoc doc with
+  | some (.arr items :: _) =>
+    let per := (tupleTys.zip items).map fun (ty, v) => Spec.expectScalar mis ty v
+    match per.find? (fun a => match a with | .err _ => true | _ => false) with
+    | some e => some [e]
+    | none =>
+      if items.length < tupleTys.length then
+        (if mis = .throwError then some [.err .mismatched] else some (per ++ (List.replicate (tupleTys.length - items.length) Ans.no)))
+      else if items.length > tupleTys.length ∧ mis = .throwError then some [.err .mismatched]
+      else some per
+  | some (.sc .nil :: _) => some (tupleTys.map fun _ => Ans.no)
+  | some (_ :: _) => if mis = .throwError then some [.err .mismatched] else some (tupleTys.map fun _ => Ans.no)
+  | _ => none
+
 def handle (toks : List String) (impl : Option String) : Option (String × String) :=
   match toks with
+  | ["mp.keyeq", alt, stored, bits, sg, value] => do
+    let r ← parseInt stored
+    let v ← parseInt value
+    let b ← bits.toNat?
+    let st ← match alt with | "u" => some (VarKey.Stored.u r) | "s" => some (VarKey.Stored.s r) | _ => none
+    let ty : VarKey.ITy := ⟨b, sg == "s"⟩
+    let ans := if VarKey.eqKey st ty v then "t" else "f"
+    let v := match impl with
+      | some i => if i == (if r == v then "t" else "f") then "ok" else "bad:key_comparison_is_not_integer_equality"
+      | none => "nospec"
+    pure (ans, v)
+  | ["mp.tuple", _src, mis, docS] => do
+    let mis ← match mis with | "throw" => some Mis.throwError | "skip" => some Mis.skip | _ => none
+    let doc ← (docS.splitOn ",").mapM parseTok
+    let ans := String.intercalate ";" ((tupleModel mis doc).map ansStr)
+    let v := match impl with
+      | some i =>
+        match (i.splitOn ";").mapM parseAns, tupleSpec mis doc with
+        | some ia, some exp => if ia = exp then "ok" else "bad:tuple_elements_differ_from_the_data_model"
+        | none, _ => "bad:unparsable_or_abnormal_answer"
+        | _, none => "nospec"
+      | none => "nospec"
+    pure (ans, v)
   | ["mp.scope", _src, mis, docS, reqS] => do
     let mis ← match mis with | "throw" => some Mis.throwError | "skip" => some Mis.skip | _ => none
     let doc ← (docS.splitOn ",").mapM parseTok
